@@ -353,6 +353,20 @@ func checkC16(c *vlib.Ctx) (string, string) {
 			ck.Report(c16Case{Cfg: l, Req: *r, Seq: seq}, f)
 		}
 	})
+	// one ACRH line naming a proper subset of the allowed names, padded with empty elements (at most 16) and optional
+	// whitespace to every length around that of the joined allow-list: the answer names what was asked for
+	for _, cred := range []bool{false, true} {
+		pad := CfgLit{Origins: []string{"https://a.example", co}, Credentialed: cred, Methods: []string{"PUT", cm}, RequestHeaders: []string{"Content-Type", "X-Admin", ch}, ResponseHeaders: []string{cr}}
+		for _, sub := range []string{"content-type", "x-admin", "content-type,x-admin"} {
+			for n := 0; n <= 16; n++ {
+				for _, line := range []string{sub + strings.Repeat(",", n), strings.Repeat(",", n) + sub, strings.Replace(sub, ",", strings.Repeat(",", n+1), 1), sub + strings.Repeat(", ", n/2+1)[:n], " " + sub + strings.Repeat(",", n)} {
+					c.States.Add(1)
+					c.Transitions.Add(2)
+					ck.Try(c16Case{Cfg: pad, Req: vlib.Req{Method: "OPTIONS", Hdr: map[string][]string{"Origin": {"https://a.example"}, "Access-Control-Request-Method": {"PUT"}, "Access-Control-Request-Headers": {line}}}})
+				}
+			}
+		}
+	}
 	// every request of the alphabet with every request attribute that is not a header (protocol version, TLS, a
 	// context that is already cancelled or past its deadline ...): a failing preflight fails the same way
 	var reqs []vlib.Req
